@@ -10,6 +10,7 @@ package c2
 
 import (
 	"sync/atomic"
+	"time"
 
 	"github.com/iDigitalFlame/xmt/com"
 	"github.com/iDigitalFlame/xmt/device"
@@ -169,4 +170,22 @@ func VerifC14TryLock(s *Session) bool {
 	}
 	s.lock.Unlock()
 	return true
+}
+
+// VerifC14Resync feeds an SvResync packet to the real system-packet handler (receiveSingle, the
+// consumer of hasJob) and reports whether the Session's sleep / jitter changed.
+func VerifC14Resync(s *Session, n *com.Packet) (applied bool) {
+	sl, ji := s.sleep, s.jitter
+	receiveSingle(s, n)
+	return s.sleep != sl || s.jitter != ji
+}
+
+// VerifC14SetSleep sets the Session's sleep / jitter (the values an SvResync would replace).
+func VerifC14SetSleep(s *Session, d time.Duration, j uint8) { s.sleep, s.jitter = d, j }
+
+// VerifC14TableDel removes a number from the pending table (what a finished or cancelled Job leaves).
+func VerifC14TableDel(s *Session, i uint16) {
+	s.lock.Lock()
+	delete(s.jobs, i)
+	s.lock.Unlock()
 }
